@@ -1111,7 +1111,7 @@ impl Property for C01 {
     }
     fn describe(&self) -> Describe {
         Describe {
-            rule: "case = seed image (library writer output for a generated authoring program under one of 10 writer configurations | the same encrypted (RC4/AES, the real passwords are tried) | library output followed by incremental form fills and note additions (multi-revision; truncation gives torn appends) | synthetic 1-5 revision file with object/xref streams and free entries | stream objects carrying every filter name, chains and adversarial /DecodeParms | a repository fixture <= 64 KiB | grammar-generated PDF skeleton | random bytes) + 0-4 stored-image faults (truncate, bit flip, byte overwrite, zeroed/duplicated/swapped blocks, splice, boundary integer in a /Key slot or in the n-th integer token, dictionary/string injections) + a source plan (fault-free | short reads | EINTR / I/O error / seek error / early EOF) + optionally a +121 s clock jump at the n-th clock read; run under strict, default, tolerant(=lenient) and skip_errors, each on a fresh thread: open, metadata, page count, every page (<=64): resources, content streams, ContentParser, annotations, text extraction; every object number the image mentions: get_object and decode_stream. Oracles: no panic (debug assertions and overflow checks on), no process death, <= 2,000,000 I/O calls per open+navigate, <= 120 s CPU per preset, no single allocation > 1 GiB, live heap <= 2 GiB. non-trivial = every case (an image was produced); distinct = digest of (image bytes, observable results).".into(),
+            rule: "one case in four is a header-field sweep (small synthetic file with an xref stream and an object stream, exactly one numeric dictionary slot of a key the file contains set to a machine-integer boundary, fault-free source); otherwise case = seed image (library writer output for a generated authoring program under one of 10 writer configurations | the same encrypted (RC4/AES, the real passwords are tried) | library output followed by incremental form fills and note additions (multi-revision; truncation gives torn appends) | synthetic 1-5 revision file with object/xref streams and free entries | stream objects carrying every filter name, chains and adversarial /DecodeParms | a repository fixture <= 64 KiB | grammar-generated PDF skeleton | random bytes) + 0-4 stored-image faults (truncate, bit flip, byte overwrite, zeroed/duplicated/swapped blocks, splice, boundary integer in a /Key slot or in the n-th integer token, dictionary/string injections) + a source plan (fault-free | short reads | EINTR / I/O error / seek error / early EOF) + optionally a +121 s clock jump at the n-th clock read; run under strict, default, tolerant(=lenient) and skip_errors, each on a fresh thread: open, metadata, page count, every page (<=64): resources, content streams, ContentParser, annotations, text extraction; every object number the image mentions: get_object and decode_stream. Oracles: no panic (debug assertions and overflow checks on), no process death, <= 2,000,000 I/O calls per open+navigate, <= 120 s CPU per preset, no single allocation > 1 GiB, live heap <= 2 GiB. non-trivial = every case (an image was produced); distinct = digest of (image bytes, observable results).".into(),
             assumptions: vec![
                 "'lenient' is an alias of 'tolerant' in the library (ParseOptions::lenient() returns tolerant()), so it is run once".into(),
                 "thresholds standing for 'unbounded' (120 s CPU, 1 GiB single allocation, 2 GiB live, 2e6 I/O calls) sit >= 100x above what a healthy case needs (about 1 ms, a few MiB, a few hundred calls)".into(),
